@@ -903,6 +903,11 @@ func (e *Eng) execInstr(fr *Frame, b *ssa.BasicBlock, ins ssa.Instruction, st *S
 		}
 		fr.defers = append(fr.defers, d)
 	case *ssa.RunDefers:
+		// deferred calls of the root function run right before it returns: nothing of the root executes after them
+		if fr.depth == 0 {
+			e.atRootExit = true
+			defer func() { e.atRootExit = false }()
+		}
 		for i := len(fr.defers) - 1; i >= 0; i-- {
 			d := fr.defers[i]
 			if d.block != b && !d.block.Dominates(b) {
